@@ -219,7 +219,9 @@ theorem run_sys {c : Conn} (h : Inv none none c) (ctx : Ctx c) {x : Handler} (hx
       exact RunOk.drop this.1 this.2
   | sm =>
     obtain ⟨l, hl⟩ := entry_late ctx hx (by rw [hk]; rfl)
-    exact RunOk.drop' (Inv_handleSm h l hl st) (ctx.live (handleSm_frame c st) hl)
+    unfold runSys; simp only
+    exact RunOk.ite (RunOk.keep h ctx)
+      (RunOk.drop' (Inv_handleSm h l hl st) (ctx.live (handleSm_frame c st) hl))
   | compressResult =>
     obtain ⟨l, hl⟩ := entry_late ctx hx (by rw [hk]; rfl)
     unfold runSys; simp only
@@ -359,8 +361,9 @@ def idPhase (c : Conn) (st : XTree) : Conn :=
   | none => c
 
 theorem fireStanza_eq (c : Conn) (st : XTree) : fireStanza c st =
-    (({ idPhase c st with handlers := (idPhase c st).handlers.map fun (h : Handler) => { h with enabled := true } } : Conn).handlers.map (·.uid)).foldl
-      (fireOne st) { idPhase c st with handlers := (idPhase c st).handlers.map fun (h : Handler) => { h with enabled := true } } := rfl
+    ((idPhase { c with handlers := c.handlers.map fun (h : Handler) => { h with enabled := true } } st).handlers.map
+      (·.uid)).foldl (fireOne st)
+      (idPhase { c with handlers := c.handlers.map fun (h : Handler) => { h with enabled := true } } st) := rfl
 
 theorem Disp_idPhase {c : Conn} (d : Disp c) (st : XTree) : Disp (idPhase c st) := by
   unfold idPhase
@@ -373,8 +376,7 @@ theorem Disp_idPhase {c : Conn} (d : Disp c) (st : XTree) : Disp (idPhase c st) 
 
 theorem Disp_fireStanza {c : Conn} (d : Disp c) (st : XTree) : Disp (fireStanza c st) := by
   rw [fireStanza_eq]
-  have d2 := Disp_mapHandlers (Disp_idPhase d st) (fun (h : Handler) => { h with enabled := true })
-    (fun h => ⟨rfl, rfl, rfl, rfl⟩)
-  exact foldl_pres (P := Disp) (fireOne st) (fun c a h => Disp_fireOne h st a) _ _ d2
+  have d1 := Disp_mapHandlers d (fun (h : Handler) => { h with enabled := true }) (fun h => ⟨rfl, rfl, rfl, rfl⟩)
+  exact foldl_pres (P := Disp) (fireOne st) (fun c a h => Disp_fireOne h st a) _ _ (Disp_idPhase d1 st)
 
 end Strophe.Lemmas.ConnC02
